@@ -216,6 +216,10 @@ func (e *Engine) clone(st *State) *State {
 	for k, v := range st.mem {
 		n.mem[k] = v
 	}
+	// the source shares all blocks with the clone from now on: it must copy on
+	// write as well, so it gives up ownership by taking a fresh id
+	e.stateSeq++
+	st.id = e.stateSeq
 	n.pc = append([]*Term(nil), st.pc...)
 	n.choices = append([]string(nil), st.choices...)
 	n.frames = make([]*Frame, len(st.frames))
@@ -387,6 +391,10 @@ func (e *Engine) mergeValue(c *Term, a, b Value) (Value, bool) {
 	case SliceV:
 		y, ok := b.(SliceV)
 		if !ok {
+			if bv, isB := b.(BigV); isB && x.obj == nil {
+				xm, ym := e.bigWiden(e.ts.Const(1, 0), bv.mag, 0)
+				return BigV{e.ts.Ite(c, xm, ym)}, true
+			}
 			return nil, false
 		}
 		if x.obj != y.obj {
@@ -467,6 +475,17 @@ func (e *Engine) mergeValue(c *Term, a, b Value) (Value, bool) {
 		return x, true
 	case Poison:
 		return x, true
+	case BigV:
+		y, ok := b.(BigV)
+		if !ok {
+			if sv, isS := b.(SliceV); isS && sv.obj == nil {
+				y = BigV{e.ts.Const(1, 0)}
+			} else {
+				return nil, false
+			}
+		}
+		xm, ym := e.bigWiden(x.mag, y.mag, 0)
+		return BigV{e.ts.Ite(c, xm, ym)}, true
 	case *RangeIter:
 		y, ok := b.(*RangeIter)
 		if !ok || x != y {
@@ -499,6 +518,9 @@ func sameValue(a, b Value) bool {
 	case *Agg:
 		y, ok := b.(*Agg)
 		return ok && x == y
+	case BigV:
+		y, ok := b.(BigV)
+		return ok && x.mag == y.mag
 	case *FuncV:
 		y, ok := b.(*FuncV)
 		return ok && x == y
